@@ -101,7 +101,11 @@ Definition check_c16 (c : c16_case) : bool * bool :=
         Nat.eqb t (j_tests jr) && Nat.eqb f (j_failures jr) && Nat.eqb e (j_errors jr) &&
         list_eqb junit_child_eqb ch (j_children jr)
     | JUnit, None => run_invalid model
-    | Progress, _ => true
+    | Progress, _ =>
+        (* the final identifier of the progress reporter: OK / ERROR, none when the suite is invalid *)
+        option_eqb Bool.eqb (sc_obs_final_ok c)
+          (if run_invalid model then None
+           else Some (snd (progress_final (map (fun p => out (fst p) (snd p)) (run_processed model)))))
     end,
     (* the property, on what the implementation did, independent of the model of the reader:
        the run is INVALID exactly when the hierarchy is (declaratively) invalid; an INVALID run has
